@@ -25,7 +25,7 @@ def plans(quick):
             # chain; v1 + v2 share the inner pipeline's results across chains
             dict(family='levels', opts=opts,
                  checks=[dict(steps=4, slots=1, lists=[['v1', 'v2'], ['v3']])],
-                 gen=dict(steps=4, slots=1, lists=[['v1', 'v2'], ['v3'], ['v2', 'v3']], fail=False, restart=False),
+                 gen=dict(steps=4, slots=1, lists=[['v1', 'v2'], ['v3'], ['v2', 'v3'], ['v2', 'v4']], fail=False, restart=False),
                  cover_limit=150, walks=40, sim=dict(num=80, depth=10, slots=1)),
             # name mode over two PARTS of one multi-config file
             dict(family='names', name_mode=True, opts=opts,
@@ -44,7 +44,7 @@ def plans(quick):
         for f, ls in (('chain', [['r1', 'r2'], ['r1', 'r3'], ['r1', 'r4']]),
                       ('mounts', [['u1', 'm12'], ['c11'], ['c21'], ['ml', 'mr']]),
                       ('diamond', [['d1', 'd2'], ['d2', 'd3']]),
-                      ('levels', [['v1', 'v2'], ['v3'], ['v2', 'v3']]))
+                      ('levels', [['v1', 'v2'], ['v3'], ['v2', 'v3'], ['v2', 'v4']]))
     ]
 
 
